@@ -585,7 +585,7 @@ func (m *Machine) visit(fr *frame, instr ssa.Instruction) int {
 			m.fault(fr, in, "invalid memory address or nil pointer dereference (store)")
 		}
 		m.access(p, true, fr, in)
-		*p = copyVal(m.get(fr, in.Val))
+		assignInPlace(p, m.get(fr, in.Val))
 	case *ssa.If:
 		c := m.get(fr, in.Cond).(Bool)
 		succ := 1
@@ -695,6 +695,29 @@ func (m *Machine) visit(fr *frame, instr ssa.Instruction) int {
 		unsupported("instruction %T: %s", instr, instr)
 	}
 	return kNext
+}
+
+// assignInPlace stores v into the cell p. Structs and arrays are copied element by element into
+// the existing cells, so that field and element addresses taken before the store stay valid (go/ssa
+// may compute &s.f first and store a whole new value of s afterwards).
+func assignInPlace(p *Value, v Value) {
+	switch src := v.(type) {
+	case Struct:
+		if dst, ok := (*p).(Struct); ok && len(dst) == len(src) {
+			for i := range src {
+				assignInPlace(&dst[i], src[i])
+			}
+			return
+		}
+	case Array:
+		if dst, ok := (*p).(Array); ok && len(dst) == len(src) {
+			for i := range src {
+				assignInPlace(&dst[i], src[i])
+			}
+			return
+		}
+	}
+	*p = copyVal(v)
 }
 
 func (m *Machine) concInt(v Value) int { return m.concIntF(nil, v) }
